@@ -72,6 +72,22 @@ CLAIMED = {
         technique="TLA+ spec + TLC model checking over geometries; replay on a configuration matrix; limit traces "
                   "validated by TLC",
     ),
+    "C05": dict(
+        category="model_checking",
+        text="SlotPool.tla with AllowFail=TRUE is model-checked: every allocator call of every action may fail in "
+             "every interleaving and Accounting/NoWrap/RefCount still hold. On the implementation, for every "
+             "TLC-generated behaviour the last operation is run with a failure at its k-th allocator call and from "
+             "its k-th call on, for every k, plus random failure subsets over the whole behaviour; TLC validates "
+             "each observation against FaultTrace.tla, a postcondition evaluated on the abstract pre-state "
+             "Document!Step yields: failure reported (false / unbound / NoMemory), overflowed() set, tree well "
+             "formed (read API and inspector), every value and reference outside the modified path unchanged, "
+             "nothing allocated after clear(), document works after clear(), no leak or foreign release.",
+        design_ref="DESIGN.md §4 C05",
+        note="Fault enumeration is exhaustive per behaviour for single and from-k schedules (k up to 40), sampled "
+             "for multi-failure subsets. Crashes/UB are observed by ASan/UBSan. Shrinking reallocations never fail.",
+        technique="TLA+ spec + TLC (failure nondeterminism); fault enumeration on the library validated by TLC "
+                  "postcondition trace spec",
+    ),
 }
 
 NOT_YET = {
